@@ -6,3 +6,14 @@ def c04_pow_identity(case, res, msg):
     exponent 0 gives 1.0 (NumPy's 1**nan == nan**0 == 1), not NaN"""
     o = case['ops'][0]
     return o[0] == 'binop' and o[1] == '**' and msg.startswith('pow-identity:')
+
+def c05_axis_name_sibling(case, res, msg):
+    """F30: a.axes[d].name = <the name of another dimension of the same array> is accepted (an Axis does not know
+    its siblings), leaving an array with two dimensions of the same name"""
+    import re
+    m = re.match(r'after step (\d+) \(rename_axis\): duplicate dimension names (\[.*\])$', msg)
+    if not m or 'ops' not in case: return False
+    k = int(m.group(1)); o = case['ops'][k]
+    import ast
+    names = ast.literal_eval(m.group(2))
+    return o[0] == 'rename_axis' and names.count(o[2]) >= 2
